@@ -40,6 +40,7 @@ StateOk(lk, s, x, got) ==
            /\ got[1].t = MaxK(a[1].t, b[1].t)
            /\ \A j \in 1..3 : /\ got[1].keys[j] >= MinK(a[1].keys[j], b[1].keys[j]) - 1
                               /\ got[1].keys[j] <= MaxK(a[1].keys[j], b[1].keys[j]) + 1
+                              /\ (a[1].keys[j] = b[1].keys[j] => got[1].keys[j] = a[1].keys[j])      \* the mean of x and x is x, exactly (x + x never overflows here)
 CmdOk(lk, c, x, got) == got = SelectCmd(c[x], PartnerOpt(lk, c, x))
 DataOk(stRead, cmRead, got) ==
   IF stRead = <<>> /\ cmRead = <<>> THEN got = <<>>
